@@ -70,6 +70,7 @@ def run_pipeline(case, tape):
 
         def rank_fn(comm, rank):
             f, constants = phys.setup_f(comm, ckw, 'v_parallel')
+            phys.check_forced(f, g)
             pipe = phys.Pipeline(comm, f, constants, chi=case['chi'], adiabatic=case['adiabatic'])
             rho, phi, QN = pipe.rho, pipe.phi, pipe.QN
             rho.getAllData()[:] = cm.local(R, rho.getLayout('v_parallel_2d'))
@@ -99,9 +100,10 @@ def run_pipeline(case, tape):
             eta, cdict = results[0]['eta'], results[0]['cdict']
             got = phys.assemble([r['phi'] for r in results], npts[:3], 'phi')
             modes = phys.assemble([r['modes'] for r in results], npts[:3], 'modes')
-            e = phys.relerr(modes, np.fft.fft(R.astype(complex), axis=1))
-            if not (e <= 1e-12):
-                raise OracleFail('modes-differ', dict(grid=g, relerr=e))
+            # (the intermediate "modes" array is not constrained by the property - normalisation and
+            # ordering are the implementation's choice - only the round trip and the potential are)
+            if phys.relerr(modes, np.fft.fft(R.astype(complex), axis=1)) <= 1e-12:
+                w.probe('modes_equal_unnormalised_fft')
             want = ref.qn_ref(R, eta, cdict, case['chi'], case['adiabatic'])
             e = phys.relerr(got, want)
             if not (e <= 1e-9):
